@@ -787,4 +787,7 @@ def run(P, R, tier):
     from . import c06 as _c06, c13 as _c13
     _c06.field_capacity(P, _Remap(R, {'C06.BND.2': 'C11.BND.4'}))
     _c13.mask_forms(P, R, _c13.scope(P), 'C11.TAB.10')
+    # the bounded copies above go through strlcpy: where the program supplies its own, it keeps its promise
+    from .. import bnd as _bndS
+    _bndS.fallback_strlcpy(P, R, 'C11.BND.5')
     return EXPLANATION, ASSUMPTIONS
